@@ -20,6 +20,7 @@ import (
 	"bytes"
 	"crypto"
 	"crypto/x509"
+	"slices"
 
 	"github.com/dadrus/heimdall/internal/heimdall"
 	"github.com/dadrus/heimdall/internal/x/errorchain"
@@ -47,7 +48,9 @@ func buildChain(chain []*x509.Certificate, issuerCandidates []*x509.Certificate)
 	child := chain[len(chain)-1]
 
 	for _, candidate := range issuerCandidates {
-		if child.Equal(candidate) {
+		// a certificate is used at most once per chain: certificates naming each
+		// other as issuer would otherwise lead to an unbounded recursion
+		if slices.ContainsFunc(chain, candidate.Equal) {
 			continue
 		} else if isIssuerOf(child, candidate) {
 			return buildChain(append(chain, candidate), issuerCandidates)
